@@ -14,16 +14,16 @@ G: MsgHeap: TLC explores every history of MaxOps operations (new, copy with
 """
 from .. import core
 
-CLS = {1: 'M', 2: 'MM', 3: 'SS', 4: 'UM'}
+CLS = {1: 'M', 2: 'MM', 3: 'SS', 4: 'UM', 5: 'RT'}
 OPS = {1: 'new', 2: 'copy', 3: 'freeze', 4: 'thaw', 5: 'setattr', 6: 'hash', 7: 'freeze_none',
-       8: 'thaw_none'}
+       8: 'thaw_none', 9: 'hashf'}
 BAD = 999
 
 
 def xval(cls, x):
     """Model value of x -> real attribute (name, value)."""
-    if cls == 'M':
-        return 'note', x
+    if cls in ('M', 'RT'):
+        return 'note', x           # a clock message has no such attribute
     if cls == 'MM':
         return 'tempo', (1 << 24) if x == BAD else x
     if cls == 'SS':
@@ -34,6 +34,8 @@ def xval(cls, x):
 def construct(cls, x, t):
     import mido
     name, v = xval(cls, x)
+    if cls == 'RT':
+        return mido.Message('clock', time=t) if x == 1 else mido.Message('clock', note=v, time=t)
     if cls == 'M':
         return mido.Message('note_on', note=v, time=t)
     if cls == 'MM':
@@ -60,6 +62,10 @@ def _describe(o):
     if (name.startswith('Frozen')) != bool(fr):
         return 'class %s but is_frozen=%r' % (name, fr)
     try:
+        if base == 'Message' and o.type == 'clock':
+            if set(vars(o)) != {'type', 'time'}:
+                return 'unexpected %s' % core.srepr(vars(o))
+            return (5, fr, 1, o.time)
         if base == 'Message':
             if o.type != 'note_on' or o.channel != 0 or o.velocity != 64:
                 return 'unexpected %s' % core.srepr(o)
@@ -103,7 +109,9 @@ def replay_history(steps):
         try:
             if op == 'new':
                 c, fr, x, t = heap[-1]
-                objs.append(construct(CLS[c], x, t))
+                # every second object carries its time as a float: 5 == 5.0, so equal
+                # frozen messages must still hash equal and find each other in a dict
+                objs.append(construct(CLS[c], x, float(t) if len(objs) % 2 else t))
             elif op == 'copy':
                 src = objs[i - 1]
                 d0 = describe(src)
@@ -125,7 +133,11 @@ def replay_history(steps):
                 # the outcome of constructing the class afresh with the merged values
                 d0 = describe(src)
                 try:
-                    fresh = construct(c, v if attr == 'x' else d0[2], v if attr == 'time' else d0[3])
+                    if c == 'RT' and attr == 'x':
+                        import mido as _m
+                        fresh = _m.Message('clock', note=v, time=d0[3])      # no such attribute
+                    else:
+                        fresh = construct(c, v if attr == 'x' else d0[2], v if attr == 'time' else d0[3])
                     fresh_ok = True
                 except ALLOWED:
                     fresh_ok = False
@@ -198,6 +210,20 @@ def replay_history(steps):
                 else:
                     if a == b:
                         return 'unequal-frozen-equal', '%s: %s == %s' % (where, core.srepr(a), core.srepr(b))
+            elif op == 'hashf':
+                a = objs[i - 1]
+                d = describe(a)
+                if isinstance(d, str):
+                    return 'heap-mismatch/hashf', '%s: %s' % (where, d)
+                t = d[3]
+                other_t = int(t) if isinstance(t, float) else float(t)
+                b = freeze_message(construct(CLS[d[0]], d[2], other_t))
+                if not (a == b):
+                    return 'equal-frozen-not-equal', '%s: %s != %s' % (where, core.srepr(a), core.srepr(b))
+                if hash(a) != hash(b) or {a: 1}.get(b) != 1 or len({a, b}) != 1:
+                    return ('hash-differs/numeric-type',
+                            '%s: %s and %s are equal but do not hash equal / collide as keys' % (
+                                where, core.srepr(a), core.srepr(b)))
             elif op == 'freeze_none':
                 if freeze_message(None) is not None:
                     return 'freeze-none', 'freeze_message(None) is not None'
@@ -256,8 +282,8 @@ CHECK_DEADLOCK FALSE
 
 def run(ctx):
     thorough = ctx.tier == 'thorough'
-    allc = '{"M", "MM", "SS", "UM"}'
-    plans = [(3, 4, allc)] if thorough else [(3, 3, allc), (3, 4, '{"SS"}'), (2, 4, '{"UM"}')]
+    allc = '{"M", "MM", "SS", "UM", "RT"}'
+    plans = [(3, 4, allc)] if thorough else [(3, 3, allc), (3, 4, '{"SS"}'), (2, 4, '{"UM"}'), (3, 4, '{"RT"}')]
     for mo, mp, classes in plans:
         pr = core.ParallelReplay(ctx, worker, batch_size=1000)
         res = core.run_tlc('MsgHeap', cfg(mo, mp, classes), on_emit=pr.push, raw_ints=True,
